@@ -157,14 +157,38 @@ def check(case, ctx):
 
 def _known_trailing_ignore(case, v):
     # dynamic lexers: the completed start symbol is carried over trailing ignored text; when the start rule is recursive the
-    # carried inner and outer items give two packed nodes for one derivation.  Matches only if removing the trailing
-    # ignored text makes is_ambiguous False.
+    # carried inner and outer items give two packed nodes for one derivation.  Matches only if cutting off a suffix that
+    # consists of ignored terminals only makes the ambiguity disappear.
     d = v.detail
-    if not d.get('is_ambiguous') or not str(d.get('lexer', '')).startswith('dynamic'): return False
-    w = d['text']
-    if w == w.rstrip(' ') or not case['g'].get('ignore'): return False
-    p = Lark(d['grammar'], parser='earley', lexer=d['lexer'], ambiguity='forest')
-    return p.parse(w.rstrip(' ')).is_ambiguous is False
+    if not (d.get('is_ambiguous') or d.get('ambig_in_tree')) or not str(d.get('lexer', '')).startswith('dynamic'): return False
+    w = d['text']; g = case['g']
+    if not g.get('ignore'): return False
+    # causal test: the carry-over applies to completed items of the *start symbol* only.  Wrap the grammar so that the
+    # recursive symbol is no longer the start symbol (start: start_ / start_: <old alternatives>, every reference renamed);
+    # if the ambiguity disappears, it was produced by the carry-over and nothing else.
+    import copy
+    g2 = copy.deepcopy(g)
+    def ren(items):
+        for i in items:
+            if i[0] == 'n' and i[1] == 'start': i[1] = 'start_'
+            elif i[0] in ('grp', 'maybe'):
+                for a in i[1]: ren(a)
+            elif i[0] in ('opt', 'star', 'plus', 'rep'): ren([i[1]])
+    refers = [False]
+    for r in g2['rules']:
+        for a in r['alts']:
+            before = repr(a['items']); ren(a['items'])
+            if repr(a['items']) != before: refers[0] = True
+        if r['name'] == 'start': r['name'] = 'start_'
+    if not refers[0]: return False      # start is not recursive: not this finding
+    g2['rules'].insert(0, {'name': 'start', 'mod': '', 'prio': None, 'params': [], 'alts': [{'items': [['n', 'start_']], 'alias': None}]})
+    p = Lark(gram.render_grammar(g2), parser='earley', lexer=d['lexer'], ambiguity='forest')
+    try:
+        root = p.parse(w)
+    except UnexpectedInput:
+        return False
+    amb = TreeForestTransformer(resolve_ambiguity=False).transform(root)
+    return not root.is_ambiguous and not (isinstance(amb, Tree) and any(t.data == '_ambig' for t in amb.iter_subtrees()))
 
 
 KNOWN = {'C20-is-ambiguous-trailing-ignore': _known_trailing_ignore}
@@ -184,6 +208,45 @@ def _any_ambiguous(root):
     return False
 
 
+# ------------------------------------------------------------------ regexp terminals under the dynamic lexers
+O_RE = gramgen.Opts(terms='re', max_rules=3, shaping=False, ignore=True, acyclic=True, nonnull=True)
+
+
+def check_re(case, ctx):
+    """single derivation (counted on the grammar AST at character level) => no ambiguity anywhere in the forest.
+    Derivations are counted (not shaped trees: `start: A+ | A` has two derivations of 'a' with one shaped tree)."""
+    g = case['g']
+    if gram.colliding_alternatives(g):
+        ctx.discard('colliding alternatives'); return
+    gtext = gram.render_grammar(g)
+    conc = gram.Concrete(g)
+    for lx in ('dynamic', 'dynamic_complete'):
+        try:
+            p = Lark(gtext, parser='earley', lexer=lx, ambiguity='forest')
+        except GrammarError:
+            ctx.discard('GrammarError'); return
+        for w in case['texts']:
+            ref = gram.Ref(g, w, 'exact', keep_all=True, concrete=conc)
+            if not ref.accepts(): continue
+            try:
+                n = ref.count()
+            except (gram.TooMany, gram.Cyclic):
+                continue
+            if n != 1: 
+                ctx.label('re:several-derivations'); continue
+            try:
+                root = p.parse(w)
+            except UnexpectedInput:
+                ctx.label('re:rejected by lark (C01 decides acceptance)'); continue
+            amb = TreeForestTransformer(resolve_ambiguity=False).transform(root)
+            has_ambig = isinstance(amb, Tree) and any(t.data == '_ambig' for t in amb.iter_subtrees())
+            if root.is_ambiguous or has_ambig or _any_ambiguous(root):
+                raise Violation('forest of an input with a single derivation contains an ambiguous node', grammar=gtext, text=w, lexer=lx,
+                                is_ambiguous=bool(root.is_ambiguous), ambig_in_tree=has_ambig)
+            ctx.label('re:single-derivation-unambiguous')
+            ctx.nontrivial([gtext, lx, w, 're'], sample={'grammar': gtext, 'text': w, 'lexer': lx, 'derivations': 1})
+
+
 def strat(o, n, max_len):
     return gramgen.grammar_and_inputs(o, max_len=max_len, n=n).map(lambda c: {'g': c['g'], 'texts': c['texts']})
 
@@ -191,4 +254,5 @@ def strat(o, n, max_len):
 def phases(tier):
     k = 12 if tier == 'thorough' else 1
     return [Phase('acyclic', 'hypothesis', strategy=strat(O_ACYC, 3, 8), max_examples=12000 * k),
-            Phase('any', 'hypothesis', strategy=strat(O_ANY, 3, 5), max_examples=12000 * k)]
+            Phase('any', 'hypothesis', strategy=strat(O_ANY, 3, 5), max_examples=12000 * k),
+            Phase('regexp-terminals-dynamic', 'hypothesis', strategy=strat(O_RE, 4, 8), max_examples=12000 * k, check=check_re)]
